@@ -9,7 +9,7 @@ import re
 from ..core import Checker, Rule, attr_calls, callee_is, calls_in, kwarg, resolved_calls, short
 from ..interp import Pins, find_nodes, unparse
 from ..model import AnalysisError
-from .util import effect_table, enclosing_loop, enclosing_stmt, enum_members, every_iteration_reaches, fmt, inline_displays, is_const, parent, returns_of, single_def
+from .util import effect_table, enclosing_loop, enclosing_stmt, enum_members, every_iteration_reaches, fmt, inline_displays, is_const, parent, returns_of, same, single_def
 
 P = ("C05", "C01")
 OPS = ["Equal", "NotEqual", "GreaterEqual", "LessEqual", "GreaterThan", "LessThan"]
@@ -217,7 +217,7 @@ def r_inline_rule(ck: Checker) -> None:
                 ok = bool(re.fullmatch(r"inline_replace_stm\(" + re.escape(stm) + r"\." + kw.arg + r",var,rest\)", txt))
                 ck.add(f"{kw.arg} := {kw.arg}[var := rest]", ok, func, c, f"`{txt}`", "")
     nb = single_def(func, "new_body")
-    ok = nb is not None and unparse(nb).replace(" ", "") == f"inline_replace_stms([xforxin{stm}.bodyifx!=blit],var,rest)"
+    ok = nb is not None and same(unparse(nb), f"inline_replace_stms([x for x in {stm}.body if x != blit], var, rest)")
     ck.add("body := (body without the equality)[var := rest]", ok, func, func.node, f"new_body = `{unparse(nb) if nb is not None else None}`", "")
     brk = [n for n in find_nodes(func.node, lambda n: isinstance(n, ast.Break))]
     ck.need(len(brk) == 1, "the first usable equality is selected with break")
